@@ -90,6 +90,7 @@ type HarnessSpec struct {
 	NonMonotonicClock bool // time.Now may go backwards between calls
 	BMI2        string   // "", "generic": cpu.X86.HasBMI2=false; "asm": true; "either": symbolic
 	MaxStrEq    int
+	ExtraPkgs   []string // further package dirs (relative to the repo root) whose /verif/harness files are overlaid too (exported helpers for the harness)
 }
 
 func NewEngine(prog *ssa.Program, pkg *ssa.Package, spec *HarnessSpec) *Engine {
